@@ -463,3 +463,140 @@ func TestC10_Daemon(t *testing.T) {
 func TestC01_Daemon(t *testing.T) {
 	RunProp(t, "c01.daemon", genScenario, retryFlaky("c01.daemon", execC01Daemon))
 }
+
+
+// ---------------------------------------------------------------------------
+// C10 under the cooperative scheduler: for all hand-off orders of a login and
+// the events of its session, no event is written twice. (Atomicity as such is
+// C03's concern; here only "written twice" is judged, on the same programs.)
+
+func execC10Sched(c c03Case) Outcome {
+	in := newC03Instance(c.Prog, true)
+	in.runSequentialPart(false)
+	choose := func(k, n int) int {
+		if len(c.Schedule) == 0 {
+			return 0
+		}
+		return c.Schedule[k%len(c.Schedule)] % n
+	}
+	res := runSchedule(in.threadFns(), choose, c.MaxPre)
+	if res.Inconcl != "" {
+		panic(&infraError{res.Inconcl})
+	}
+	if res.Deadlock {
+		return Outcome{Skip: "deadlock_(C03's_concern)"}
+	}
+	in.runSequentialPart(true)
+	seen := map[string]int{}
+	for _, e := range in.rec.Events() {
+		k := fmt.Sprintf("%s|%d", e.Ev.Metadata.AuditID, opIndexOf(e.Ev.LoggedAt))
+		seen[k]++
+		if seen[k] > 1 {
+			return fail("audit event (session %s, op %d) was written %d times under schedule %v; program %s", e.Ev.Metadata.AuditID, opIndexOf(e.Ev.LoggedAt), seen[k], res.Trace, c.Prog)
+		}
+	}
+	return Outcome{NT: res.Preemptions >= 1, Labels: []string{fmt.Sprintf("threads:%d", len(c.Prog.Threads))}}
+}
+
+func TestC10_Sched(t *testing.T) { RunProp(t, "c10.sched", genC03, execC10Sched) }
+
+// ---------------------------------------------------------------------------
+// C10 burst: events of several KiB on the audit pipe while the sshd pipe is
+// flooded — the situation in which a torn or interleaved write shows.
+
+type dBurst struct {
+	BigEvents int  `json:"big_events"`
+	ArgBytes  int  `json:"arg_bytes"`
+	SshdLines int  `json:"sshd_lines"`
+	Race      bool `json:"race"`
+}
+
+func execC10Burst(b dBurst) Outcome {
+	d := startDaemon(daemonOpts{Race: b.Race})
+	defer d.cleanup()
+	sw, err := d.openWriter(d.sshdPipe)
+	if err != nil {
+		panic(&infraError{err.Error()})
+	}
+	defer sw.Close()
+	aw, err := d.openWriter(d.audPipe)
+	if err != nil {
+		panic(&infraError{err.Error()})
+	}
+	defer aw.Close()
+	// one correlated session
+	fmt.Fprintf(sw, "4242 Accepted password for burst from 10.9.9.9 port 22 ssh2\n")
+	login := buildAudEvent("LOGIN", 1, 60001, defaultAudFields("LOGIN", "4100", "4242", 0))
+	fmt.Fprintln(aw, login.Lines[0])
+	if !d.waitForOutput(30*time.Second, func(o string) bool { return strings.Count(o, "\n") >= 2 }) {
+		panic(&infraError{"session not correlated within 30s: " + tailStr(d.stderrText(), 400)})
+	}
+	var ab strings.Builder
+	for i := 0; i < b.BigEvents; i++ {
+		f := defaultAudFields("SYSCALL", "4100", "800", 0)
+		f.Result = "yes"
+		f.Args = []string{"bigcmd", strings.Repeat("a", b.ArgBytes)}
+		for _, l := range buildAudEvent("SYSCALL", 10+i, 60010+i, f).Lines {
+			ab.WriteString(l)
+			ab.WriteByte('\n')
+		}
+	}
+	disp := buildAudEvent("CRED_DISP", 5, 60010+b.BigEvents+5, defaultAudFields("CRED_DISP", "4100", "4242", 0))
+	ab.WriteString(disp.Lines[0] + "\n")
+	var sb strings.Builder
+	for i := 0; i < b.SshdLines; i++ {
+		fmt.Fprintf(&sb, "%d Invalid user flood%d from 10.0.%d.%d port %d\n", 100000+i, i, (i/250)%250, i%250, 1024+i%60000)
+	}
+	var wg sync.WaitGroup
+	wg.Add(2)
+	go func() { defer wg.Done(); writeChunked(aw, []byte(ab.String()), 1<<16, 0) }()
+	go func() { defer wg.Done(); writeChunked(sw, []byte(sb.String()), 1<<16, 0) }()
+	wg.Wait()
+	want := 2 + b.BigEvents + 1 + b.SshdLines
+	lastPid := fmt.Sprintf("\"pid\":\"%d\"", 100000+b.SshdLines-1)
+	done := func(o string) bool {
+		return strings.Contains(o, "disposed-credentials") && strings.Contains(o, lastPid) && strings.HasSuffix(o, "\n")
+	}
+	if !d.waitForOutput(120*time.Second, done) {
+		if _, ok := d.waitExit(0); !ok {
+			dump := d.dumpAndKill()
+			panic(&infraError{"burst not processed within 120s:\n" + dump})
+		}
+	}
+	time.Sleep(50 * time.Millisecond)
+	res := scenarioResult{lines: d.outputLines()}
+	_ = d.cmd.Process.Signal(syscall.SIGTERM)
+	d.waitExit(10 * time.Second)
+	res.stderr = d.stderrText()
+	res.lines = d.outputLines()
+	if err := res.parse(); err != nil {
+		return Outcome{Err: fmt.Errorf("%d big events of %d bytes against %d sshd lines: %w", b.BigEvents, b.ArgBytes, b.SshdLines, err)}
+	}
+	if strings.Contains(res.stderr, "DATA RACE") {
+		i := strings.Index(res.stderr, "WARNING: DATA RACE")
+		return fail("race detector report in the daemon:\n%s", res.stderr[i:imin(len(res.stderr), i+3000)])
+	}
+	seen := map[string]int{}
+	for i, ev := range res.events {
+		k := ev.Type + "|" + ev.Metadata.AuditID + "|" + ev.Subjects["pid"] + "|" + fmt.Sprint(ev.LoggedAt.UnixNano())
+		if ev.Type == "UserLogin" {
+			k = "UserLogin|" + ev.Subjects["pid"]
+		}
+		seen[k]++
+		if seen[k] > 1 {
+			return fail("output line %d: event %s written %d times", i+1, k, seen[k])
+		}
+	}
+	addExtra("c10.burst", "output_lines", len(res.lines))
+	if len(res.lines) != want {
+		addExtra("c10.burst", "line_count_differs_from_expectation_(not_judged_here)", 1)
+	}
+	return Outcome{NT: true, Labels: []string{fmt.Sprintf("arg_bytes:%d", b.ArgBytes)}}
+}
+
+func TestC10_Burst(t *testing.T) {
+	RunProp(t, "c10.burst", func(rt *rapid.T) dBurst {
+		return dBurst{BigEvents: rapid.IntRange(800, 3000).Draw(rt, "big"), ArgBytes: pick(rt, "arg", []int{4200, 5000, 9000, 3900}),
+			SshdLines: rapid.IntRange(20000, 80000).Draw(rt, "sshd"), Race: rapid.Bool().Draw(rt, "race")}
+	}, retryFlaky("c10.burst", execC10Burst))
+}
